@@ -21,7 +21,11 @@ the start vertex and returns the start after exhausting maxiter = maxfun = 1e4 (
 with the budget of 1e5 that fc45e06 had introduced and /repo commit 8a1c973 took back).  There the proxy
 verifies that the objective is +inf on the start simplex and on probe points and returns the start at once (counted as
 `fmin_constant_inf_shortcuts`); `norun_real` cases run scipy's real Nelder-Mead on it (capped at 4000 evaluations) and
-compare."""
+compare.
+
+Warnings of the code under test are suppressed in every run except the real-optimiser runs of the flat-ridge repository
+data cases (`repo_data`): there `analyze(..., warns=[...])` records them and `C18._limit_warning` demands the UserWarning
+of /repo d747c6e - exactly one when fmin stopped at its iteration limit with a finite objective, none when it converged."""
 import json
 import math
 import os
@@ -60,10 +64,11 @@ EXACT_SPREAD = 1e-12          # log10-spread of the shifted cycles below which t
 EXACT_RATE_MIN = 0.55         # exact data sets returning TN = TS = 1 within 1e-6: measured 0.81 (484/600, 27/32); a batch of 40 must stay above this
 
 
-FMIN_BUDGET = 30000           # objective evaluations per optimiser run; the unchanged code needs < 1500 on admissible data (measured, `max_fmin_evaluations`)
+FMIN_BUDGET = 30000           # objective evaluations per optimiser run; the unchanged code needs < 1500 on admissible data with a well-defined optimum and never more than its own limit maxfun = 1e4 (8a1c973): the stats value `max_fmin_evaluations` is 10000 in every run, because the flat-ridge repository data sets (repo_data) run to that limit
 
 
 REAL_FMIN_CAP = 4000          # iterations / evaluations of scipy's real Nelder-Mead in the `norun_real` validation of the constant-objective shortcut
+LIMIT_WARNING = "MaxLikeHood: the optimizer stopped at its iteration limit"      # start of the UserWarning of /repo d747c6e (maxlike._warn_if_not_converged)
 
 
 class OptimiserBudgetExceeded(Exception):
@@ -136,6 +141,7 @@ class _OptimizeProxy:
         call["xopt"] = np.array(r[0] if full else r, dtype=np.float64)
         call["evaluations"] = n[0]
         call["warnflag"] = int(r[4]) if full else None
+        call["fopt"] = float(r[1]) if full else None
         if self.cap is None:
             self.max_evaluations = max(self.max_evaluations, n[0])
         return r
@@ -170,9 +176,10 @@ def has_runouts(rows):
     return any(not r[2] for r in rows)
 
 
-def analyze(name, rows, labels=None, stub=None, calls=None, real_fmin=False, fixed=None, **dfkw):
+def analyze(name, rows, labels=None, stub=None, calls=None, real_fmin=False, fixed=None, warns=None, **dfkw):
     """run one analyzer of the real code; returns dict of floats or {'error': kind}.  `stub(call)` = answer of the
-    optimiser (correspondence only); `calls` collects the recorded fmin calls"""
+    optimiser (correspondence only); `calls` collects the recorded fmin calls.  Warnings of the code are suppressed, unless a
+    list `warns` is given: then they are recorded (every one, filter "always") and appended to it as (category, message)."""
     woe = _woe()
     A = getattr(woe, name)
     rec = _rec()
@@ -182,12 +189,16 @@ def analyze(name, rows, labels=None, stub=None, calls=None, real_fmin=False, fix
         rec.shortcut = (name == "MaxLikeFull" and not has_runouts(rows) and not real_fmin)
         rec.cap = REAL_FMIN_CAP if real_fmin else None
     try:
-        with warnings.catch_warnings():
-            warnings.simplefilter("ignore")
+        with warnings.catch_warnings(record=warns is not None) as caught:
+            warnings.simplefilter("ignore" if warns is None else "always")
             with np.errstate(all="ignore"):
                 try:
-                    an = A(make_df(rows, labels, **dfkw))
-                    r = an.analyze(fixed_parameters=dict(fixed)) if fixed is not None else an.analyze()
+                    try:
+                        an = A(make_df(rows, labels, **dfkw))
+                        r = an.analyze(fixed_parameters=dict(fixed)) if fixed is not None else an.analyze()
+                    finally:
+                        if warns is not None:
+                            warns.extend((w.category, str(w.message)) for w in caught)
                 except ValueError as e:
                     return {"error": "ValueError: " + str(e)[:60]}
                 except OptimiserBudgetExceeded as e:
@@ -198,6 +209,7 @@ def analyze(name, rows, labels=None, stub=None, calls=None, real_fmin=False, fix
         if rec is not None and rec.calls and rec.calls[-1]["mode"] == "real":
             out["warnflag"] = rec.calls[-1].get("warnflag")
             out["evaluations"] = rec.calls[-1].get("evaluations")
+            out["fopt"] = rec.calls[-1].get("fopt")
         return out
     finally:
         if rec is not None:
@@ -696,12 +708,15 @@ class C18(Prop):
             "undefined in exact arithmetic; the real code returns NaN / inf / arbitrary values depending on rounding "
             "(known finding exact-basquin-scatter).",
         "PylifeVerif.C18.ml_not_worse_than_start_partial":
-            "proved about the model PIPELINES maxLikeInf / maxLikeFull (start point, objective, fixed parameters and "
-            "post-processing as in maxlike.py, tied to the code by the correspondence ops c18.mlinf / c18.mlinfobj / c18.mlfull / "
-            "c18.mlfullobj): for every optimiser that never returns a point worse than its start, the infinite-zone likelihood of "
+            "proved about the model PIPELINES maxLikeInf / maxLikeFull (start point, objective, fixed parameters, scaling of the "
+            "optimisation variables by relScale and post-processing as in maxlike.py, tied to the code by the correspondence ops "
+            "c18.mlinf / c18.mlinfobj / c18.mlfull / c18.mlfullobj) under TWO contracts: NeverWorseThanStart (1, 1) for MaxLikeInf's "
+            "one-argument optimiser (a function of the objective, started at (1, 1)) and NeverWorseThanItsStart for MaxLikeFull's "
+            "two-argument optimiser (objective and start vector; the start is fullStart = 1 per parameter, 0 where the elementary "
+            "start value is 0).  For every optimiser honouring them the infinite-zone likelihood of "
             "MaxLikeInf's result is >= that of (finite_infinite_transition, 1.2) and the total likelihood of MaxLikeFull's result "
-            "is >= the objective at the start vector, which IS the total likelihood of the elementary estimate when nothing is "
-            "fixed.  ASSUMED (the hypothesis of the theorem, not provable here): scipy.optimize.fmin keeps the best vertex of its "
+            "is >= the objective at fullStart, which IS the total likelihood of the elementary estimate when nothing is "
+            "fixed (also when some of its entries are 0).  ASSUMED (the hypotheses of the theorem, not provable here): scipy.optimize.fmin keeps the best vertex of its "
             "simplex, the start being one of them.  Measured per run on the real code (ml_start_checks_*).  MaxLikeInf starts "
             "from TS = 1.2, not from the elementary TS: its result is compared with the point actually used.",
     }
@@ -712,7 +727,10 @@ class C18(Prop):
             "(data set with >= 2 mixed levels + analyzer MaxLikeInf / MaxLikeFull, or ONE mixed level + MaxLikeFull: TS fixed) | "
             "exact (data exactly on a Basquin line) | exact_batch (40 exact data sets: share with TN = TS = 1) | history | ml with "
             "user-fixed parameters near the elementary estimate | ml on the repository's flat-ridge data sets | zero_start (Elementary "
-            "gives k_1 = -0.0, TS = 0 exactly: start values 0 of MaxLikeFull's search) | big (27000 tests: evaluation budget).  "
+            "gives k_1 = -0.0, TS = 0 exactly: start values 0 of MaxLikeFull's search) | big (27000 tests: MaxLikeInf / MaxLikeFull must "
+            "converge - warnflag 0 - within 600 / 4000 objective evaluations) | norun_real (data without run-outs: scipy's real Nelder-Mead "
+            "on MaxLikeFull's constant +inf objective, capped at 4000 evaluations, must return what the constant-objective shortcut of the "
+            "proxy returns).  "
             "Correspondence: Lean model (Float) vs real code for zones (membership in the model's zone lists), irrelevant-run-out "
             "dropping, Elementary, Probit, the likelihood functions, and the ML pipelines with the optimiser replaced on both "
             "sides by the same given answer (objective values at given relative points, fixed-parameter mode, result) (1e-9 "
@@ -720,7 +738,13 @@ class C18(Prop):
             "for two load factors and two cycle factors out of {1e-4, 2^-10, 0.37, 3, 7, 1000} per case, a row permutation, other "
             "row labels, integer-dtype loads, omitted fracture column; df.fatigue_data transition / zones under the same "
             "transformations; each test in exactly one zone on the correct side of the reported transition; slope / scatter on "
-            "exact Basquin data; likelihood(result) >= likelihood(start).  MaxLikeFull runs on every data set without run-outs "
+            "exact Basquin data; likelihood(result) >= likelihood(start).  Ridge rule: a parameter deviation between two ML runs is not a "
+            "failure when the two answers have the same likelihood to 2e-9 and their geometric midpoint is not better (flat ridge: counted, "
+            "parameters not compared).  Frozen parameter: a free parameter that comes back bit-identical to its start value although "
+            "changing it alone by 0.1 % raises the likelihood is a failure (class ml-frozen-parameter; checked with the start check, "
+            "zero_start cases aim at it).  Iteration-limit warning (flat-ridge repository data cases only): a run that stops at its "
+            "iteration limit with a finite likelihood emits exactly one UserWarning 'MaxLikeHood: the optimizer stopped at its iteration "
+            "limit ...' (/repo d747c6e), a converged run none (class ml-limit-warning).  MaxLikeFull runs on every data set without run-outs "
             "(SD = 0, TS = 1 fixed).  history = a session (data set with ONE mixed level analysed first, then an ML-admissible "
             "data set by all four analyzers) compared with the same analyses as the first ones of a fresh interpreter "
             "(subprocess).  distinct_nontrivial counts distinct cases (every case exercises at least one analyzer on a "
@@ -739,7 +763,8 @@ class C18(Prop):
         "C18: admissible data set (kind data) = at least two fractured load levels with a spread of cycles in the FINITE zone and at "
         "least three finite-zone fractures that are not collinear in log-log (two points are always an exact Basquin line: kind "
         "`exact`), positive loads and cycles, the automatic finite/infinite transition (set_finite_infinite_transition / "
-        "conservative_finite_infinite_transition and MaxLikeFull's user `fixed_parameters` are opt-in and not covered).  Series "
+        "conservative_finite_infinite_transition are opt-in and not covered; MaxLikeFull's user `fixed_parameters` are not in the Lean "
+        "model but are checked by the oracle, see the item on user-fixed parameters below).  Series "
         "topped by a run-out level (kind staircase) have an empty finite zone: Elementary and MaxLikeFull return k_1 = inf and "
         "NaN (loud: UserWarning) - this branch of Elementary.analyze is not in the Lean model; there zones, transition, and "
         "SD / TS of Probit and MaxLikeInf are compared with the model and all five keys (NaN = NaN) between transformed runs",
@@ -766,10 +791,12 @@ class C18(Prop):
         "shrinks its simplex and the code returns the start after its whole budget of 1e4 evaluations (seconds; about 100 s with "
         "the 1e5 of fc45e06): the real optimiser is not run "
         "on such data sets (counted: ml_start_likelihood_minus_inf_not_optimised); any other run that asks for more than 30000 "
-        "objective evaluations is reported (class optimiser-budget-exceeded; the unchanged code needs < 1500; with the code's "
+        "objective evaluations is reported (class optimiser-budget-exceeded; the unchanged code needs < 1500 where the optimum is well "
+        "defined and 1e4 = its own limit on the flat-ridge repository data sets; with the code's "
         "own limit maxfun = 1e4 since 8a1c973 this can fire only if that limit is raised or dropped)",
         "C18 (ill-posed optima): the relations between PARAMETERS of two ML runs are claimed where the optimum is well defined.  "
-        "Where the optimiser stops on its iteration budget (warnflag 1; since C18-maxlike-relative-followup.diff the code warns) "
+        "Where the optimiser stops on its iteration budget (warnflag 1; since /repo d747c6e the code warns - that warning is demanded on "
+        "the flat-ridge repository data cases, class ml-limit-warning; every other run suppresses warnings) "
         "the likelihood is flat along a ridge - e.g. one run-out level only or no mixed level (repository data sets "
         "data_one_runout_load_level, data_no_mixed_horizons): ND * SD^k is determined, SD is not - and the answer depends on the row "
         "order at EQUAL likelihood (also with warnflag 0: it may stop anywhere on the ridge).  The oracle recognises the ridge by "
@@ -1164,8 +1191,14 @@ class C18(Prop):
                         self._count("ml_start_likelihood_minus_inf_not_optimised")
                         self._last_base = {(name, json.dumps(rows)): {"error": "not optimised: likelihood -inf at the start"}}
                         continue
-            base = analyze(name, rows)
+            ridge = bool(case.get("repo_data"))       # flat-ridge repository data: the runs are also examined for the iteration-limit warning
+            wrec = [] if ridge else None
+            base = analyze(name, rows, warns=wrec)
             self._last_base = {(name, json.dumps(rows)): base}
+            if ridge:
+                res = self._limit_warning(name, "original data", base, wrec)
+                if res is not None:
+                    return res
             # ML results: the optimiser resolves each parameter RELATIVE to its start value (xtol on p / start), so a
             # parameter that the optimum drives to ~0 (e.g. k_1 -> 0 on a flat series: 6e-16 vs 7e-17) is resolved
             # absolutely on the scale of its start value: deviations are measured against max(|expected|, |start|)
@@ -1216,8 +1249,13 @@ class C18(Prop):
                 variants = [v for v in variants if any(v[0].startswith(p) for p in case["only_variants"])]
             variants.sort(key=lambda v: 0 if v[2] else 1)      # the scalings first (stable): a broken relation shows after few runs
             for what, vrows, fac, vlabels, dfkw in variants:
-                got = analyze(name, vrows, vlabels, fixed=fixed_for(fac), **dfkw)
+                wrec = [] if ridge else None
+                got = analyze(name, vrows, vlabels, fixed=fixed_for(fac), warns=wrec, **dfkw)
                 self._count("analyzer_runs_" + name)
+                if ridge:
+                    res = self._limit_warning(name, what, got, wrec)
+                    if res is not None:
+                        return res
                 if got.get("budget"):
                     return (f"{name}: {what}: {got['error']} (the unchanged code needs < 1500)", "optimiser-budget-exceeded")
                 if dfkw:
@@ -1271,6 +1309,26 @@ class C18(Prop):
                         return (f"{name}: {what}: {key} = {got[key]!r}, expected {want!r} (original {base[key]!r}); "
                                 f"relative deviation {abs(got[key] - want) / abs(want) if want else float('inf'):.3g}",
                                 "equivariance-" + name)
+        return None
+
+    def _limit_warning(self, name, what, res, warns):
+        """/repo d747c6e (maxlike._warn_if_not_converged), on the runs of the flat-ridge repository data cases: a run of the real
+        optimiser that stops at its iteration limit (fmin's warnflag != 0) with a finite objective emits exactly one warning of
+        category UserWarning that begins with LIMIT_WARNING; a converged run (warnflag 0) emits none.  `warns` = what `analyze`
+        recorded during that run.  No further optimiser run is made."""
+        if "error" in res or res.get("warnflag") is None:
+            return None
+        fopt = res.get("fopt")
+        on_limit = res["warnflag"] != 0 and fopt is not None and abs(fopt) < math.inf
+        seen = [c for c, m in warns if m.startswith(LIMIT_WARNING)]
+        self._count("limit_warning_runs_" + ("on_limit" if on_limit else "converged" if res["warnflag"] == 0 else "on_limit_infinite_likelihood"))
+        if on_limit and not (len(seen) == 1 and seen[0] is UserWarning):
+            return (f"{name}: {what}: the optimiser stopped at its iteration limit (warnflag {res['warnflag']}, {res.get('evaluations')} "
+                    f"evaluations, objective {fopt!r}) but the run emitted {[c.__name__ for c in seen] or 'no'} warning "
+                    f"'{LIMIT_WARNING} ...' (expected exactly one UserWarning: the estimate is not unique)", "ml-limit-warning")
+        if not on_limit and seen:
+            return (f"{name}: {what}: the run emitted the warning '{LIMIT_WARNING} ...' {len(seen)} time(s) although the optimiser "
+                    f"{'converged (warnflag 0)' if res['warnflag'] == 0 else 'ended with an infinite objective'}", "ml-limit-warning")
         return None
 
     def _likelihood(self, name, rows, c):
